@@ -560,7 +560,16 @@ func c11Factoid(c *core.Ctx, r *core.Result, w *World, era drive.Era, key string
 			}
 		}
 	}
-	// the same valid burn twice in one block (distinct salts) pays twice; listed for completeness
+	// one address burning twice in a block (another address's burn between the two), and twice the same amount:
+	// every valid burn credits its amount
+	for i, spec := range []struct {
+		key int
+		amt uint64
+	}{{590, 5e8}, {591, 3e8}, {590, 2e8}, {592, 4e8}, {592, 4e8}} {
+		k := kit.Key(spec.key)
+		t := fake.FTx{SaltMs: int64(5000 + i), Inputs: []fake.FIO{{Amount: spec.amt, Address: k.FAAddress()}}, Seeds: [][32]byte{k}, ECOuts: []fake.FIO{{0, burn}}}
+		cases = append(cases, tcase{t, true, k.FAAddress(), spec.amt, fmt.Sprintf("repeated burner key %d burn %d", spec.key, i)})
+	}
 	var txs []fake.FTx
 	for _, cs := range cases {
 		txs = append(txs, cs.tx)
@@ -582,13 +591,16 @@ func c11Factoid(c *core.Ctx, r *core.Result, w *World, era drive.Era, key string
 	if err != nil {
 		panic(err)
 	}
+	wantBy := map[factom.FAAddress]uint64{}
+	for _, cs := range cases {
+		if cs.valid && h < era.V20 {
+			wantBy[cs.who] += cs.amt
+		}
+	}
 	for _, cs := range cases {
 		r.Eval()
 		r.NonTrivial(key + "|" + cs.desc)
-		want := uint64(0)
-		if cs.valid && h < era.V20 {
-			want = cs.amt
-		}
+		want := wantBy[cs.who] // all burns of this address in the block
 		got := post.Bal(cs.who, "pFCT") - pre.Bal(cs.who, "pFCT")
 		if got != want {
 			r.Violate(core.Violation{Key: key, Signature: "C11:burn-credit-differs:" + era.Name, Desc: fmt.Sprintf("factoid transaction (%s, valid burn=%v) at height %d credited %d pFCT, expected %d", cs.desc, cs.valid, h, got, want)})
